@@ -110,7 +110,17 @@ fn inc_history<const R: usize>(key: &[u8], nonce: &[u8], steps: &[&str]) -> Vec<
                     Some(hex(&d))
                 })
             }
-            // cl : clone the running context and finalize the clone too (both results are reported)
+            // cl : continue on a clone of the running context (the original is dropped), in whatever phase it is
+            "cl" => step(&mut out, || {
+                st = match std::mem::replace(&mut st, Inc::Done) {
+                    Inc::Aad(c) => Inc::Aad(c.clone()),
+                    Inc::Enc(c) => Inc::Enc(c.clone()),
+                    Inc::Dec(c) => Inc::Dec(c.clone()),
+                    Inc::Done => panic!("HARNESS"),
+                };
+                None
+            }),
+            // fin : finalize; for encryption a clone is finalized too (both tags are reported)
             "fin" => step(&mut out, || match std::mem::replace(&mut st, Inc::Done) {
                 Inc::Enc(c) => {
                     let c2 = c.clone();
